@@ -99,7 +99,10 @@ func VerifC18_AlertLimit() {
 			}
 			vfReach("gc")
 		}
-		if vfBool("heartbeat") {
+		// an optional re-send of an alert admitted at the start (it may have expired in the
+		// meantime and, without a GC, still sit in the store), before or after the fresh ones
+		hb, hbLast := vfBool("heartbeat"), vfBool("heartbeatAfterFresh")
+		if hb && !hbLast {
 			h.set(vfChoice("heartbeatOf", 1+vfTier()), vfSeconds("end", 1, 3600))
 		}
 		extra := n
@@ -108,6 +111,9 @@ func VerifC18_AlertLimit() {
 		}
 		for j := 0; j < extra; j++ {
 			h.set(10+10*round+j, vfSeconds("end", 1, 3600))
+		}
+		if hb && hbLast {
+			h.set(vfChoice("heartbeatOf", 1+vfTier()), vfSeconds("end", 1, 3600))
 		}
 	}
 }
